@@ -59,6 +59,24 @@ impl<W> AsyncWriter<W> {
     }
 }
 
+#[cfg(minicbor_verif)]
+impl<W> AsyncWriter<W> {
+    /// Verification hook: `(state tag, offset, buffer length)`.
+    ///
+    /// Tag 0 = idle, tag 1 = writing the buffer from the given offset.
+    pub fn verif_state(&self) -> (u8, usize, usize) {
+        match &self.state {
+            State::None         => (0, 0, self.buffer.len()),
+            State::WriteFrom(o) => (1, *o, self.buffer.len())
+        }
+    }
+
+    /// Verification hook: the internal frame buffer.
+    pub fn verif_buffer(&self) -> &[u8] {
+        &self.buffer
+    }
+}
+
 impl<W: AsyncWrite + Unpin> AsyncWriter<W> {
     /// Encode and write a CBOR value and return its size in bytes.
     ///
